@@ -126,6 +126,19 @@ func (x *Exec) buildQueryOpt(pcs [][]*Term, goals []*Term, slice bool, getValues
 							}
 						}
 					}
+					if t.Op == "select" && len(t.Args) == 2 && t.Args[1].S.K == 'v' {
+						// array indices (and, for base+offset indices, their summands)
+						idxs := []*Term{t.Args[1]}
+						if t.Args[1].Op == "bvadd" {
+							idxs = append(idxs, t.Args[1].Args...)
+						}
+						for _, a := range idxs {
+							if !a.IsLit && len(a.String()) < 160 && isGroundTerm(a) && !seenC[a.String()] && len(cands) < 40 {
+								seenC[a.String()] = true
+								cands = append(cands, a)
+							}
+						}
+					}
 					for _, a := range t.Args {
 						scan(a, depth+1)
 					}
